@@ -9,6 +9,7 @@ package main
 // A sweep of programs outside the fragment goes through node only.
 
 import (
+	"os"
 	"regexp"
 	"bytes"
 	"fmt"
@@ -764,6 +765,15 @@ func (g *c01Gen) expr(budget int) *c01E {
 	if r.Intn(40) == 0 {
 		return g.deMorganShape()
 	}
+	if r.Intn(60) == 0 {
+		// a conditional whose test is a parenthesised comma list that ends in a constant (isTruthy sees the whole test)
+		konst := []*c01E{{K: 'T'}, {K: 'F'}, {K: 'Z'}, c01N(0), c01N(1), c01Str(""), c01Str("s"), c01V("undefined"), c01U("!", c01N(0))}[r.Intn(9)]
+		head := c01L(c01V(r.Pick(c01Funs)), c01N(r.Intn(3)))
+		if r.Chance(30) {
+			head = c01B("=", c01V(r.Pick(c01Vars)), g.leaf())
+		}
+		return c01C(c01G(c01M(head, konst)), c01Wrap(g.expr(budget-2), int(pjs.OpAssign)), c01Wrap(g.leaf(), int(pjs.OpAssign)))
+	}
 	for try := 0; try < 20; try++ {
 		var f string
 		switch x := r.Intn(100); {
@@ -1466,6 +1476,9 @@ func init() {
 					}
 				}
 			}
+		}
+		if os.Getenv("VERIF_C01_ONLY") == "rules" { // debugging aid: only the rule-directed stage
+			return c01RulesStage(c)
 		}
 		// stage 1: exhaustive small expressions
 		var cases []*c01Case
